@@ -132,6 +132,11 @@ func buildCmpGrid() {
 	num("10", "10")
 	num("9", "9")
 	num("1e0", "1")
+	// literals of 35 and more significant digits that differ only beyond the 34th: a literal is the number written
+	for _, l := range []string{"10000000000000000000000000000000000001", "10000000000000000000000000000000000000", "1.0000000000000000000000000000000000001", "0.99999999999999999999999999999999999999",
+		"123456789012345678901234567890123456", "123456789012345678901234567890123457", "99999999999999999999999999999999995", "99999999999999999999999999999999994", "1e37", "1.00000000000000000000000000000000000010"} {
+		num(l, l)
+	}
 	cmpGrid = append(cmpGrid, gval{Expr: "(1/0)", Kind: "numx"}, gval{Expr: "(-1/0)", Kind: "numx"})
 	// NaN from several sources: whatever it equals, it does not equal a finite number
 	cmpData["dnan"] = math.NaN()
